@@ -181,3 +181,130 @@ Proof.
       * unfold entry_at in *. destruct (tgP op (s_utxo (b_st b))) as [e0|] eqn:T; [|congruence].
         apply Hkey. eapply (HK op e0); eauto. eapply tget_In; [exact pair_eqb_eq|exact T].
 Qed.
+
+(* ---- lists of flotsam *)
+
+Definition FlInv (E : list (N * ientry)) (rs : list (N * N)) (l : list flotsam) : Prop :=
+  forall f s, In f l -> f_origin f = OOld s -> tgN s E <> None /\ sat_at E rs s (f_offset f).
+
+Lemma Ext_refl : forall E, Ext E E.
+Proof. intros E s e H. eauto. Qed.
+
+Lemma Ext_trans : forall A B C, Ext A B -> Ext B C -> Ext A C.
+Proof.
+  intros A B C H1 H2 s e He. destruct (H1 s e He) as (e1 & X1 & Y1). destruct (H2 s e1 X1) as (e2 & X2 & Y2).
+  exists e2. split; auto. congruence.
+Qed.
+
+Lemma Ext_key : forall E E' s, Ext E E' -> tgN s E <> None -> tgN s E' <> None.
+Proof.
+  intros E E' s HX H. destruct (tgN s E) as [e|] eqn:Q; [|congruence]. destruct (HX s e Q) as (e' & A & _). congruence.
+Qed.
+
+Lemma FlInv_ext : forall E E' rs l, Ext E E' -> FlInv E rs l -> FlInv E' rs l.
+Proof.
+  intros E E' rs l HX H f s Hf Ho. destruct (H f s Hf Ho) as [A B]. split; [eapply Ext_key; eauto|].
+  eapply sat_at_ext; eauto.
+Qed.
+
+Definition OutsR (txid : N) (outs : list txout) (per_out : list (list (N * N))) (U : list (outpoint * uentry)) : Prop :=
+  forall k o, nth_error outs k = Some o ->
+    exists u, tgP (txid, N.of_nat k) U = Some u /\ u_ranges u = nth k per_out [].
+
+Lemma entry_at_push_ranges : forall op s off U k,
+  u_ranges (entry_at k (push_insc op s off U)) = u_ranges (entry_at k U).
+Proof.
+  intros op s off U k. unfold entry_at, push_insc. rewrite tgP_set. destruct (pair_eqb k op) eqn:E; auto.
+  apply pair_eqb_eq in E. subst. destruct (tgP op U); reflexivity.
+Qed.
+
+Lemma OutsR_push : forall txid outs per_out op s off U,
+  OutsR txid outs per_out U -> OutsR txid outs per_out (push_insc op s off U).
+Proof.
+  intros txid outs per_out op s off U H k o Hk. destruct (H k o Hk) as (u & A & B).
+  pose proof (entry_at_push_ranges op s off U (txid, N.of_nat k)) as Q. unfold entry_at in Q at 2. rewrite A in Q.
+  unfold entry_at in Q. destruct (tgP (txid, N.of_nat k) (push_insc op s off U)) as [u'|] eqn:T.
+  - exists u'. split; auto. congruence.
+  - exfalso. unfold push_insc in T. rewrite tgP_set in T. destruct (pair_eqb (txid, N.of_nat k) op); congruence.
+Qed.
+
+Lemma is_null_real : forall txid v, txid <> 0 -> is_null (txid, v) = false.
+Proof.
+  intros txid v H. unfold is_null, pair_eqb, null_op. cbn [fst snd]. destruct (N.eqb_spec txid 0); [contradiction|reflexivity].
+Qed.
+
+Lemma apply_locs_sat : forall h rs txid outs per_out lft lostr locs b b',
+  txid <> 0 -> split_sats outs rs = Ok (per_out, lft) ->
+  DomIff (b_next b) (s_entries (b_st b)) ->
+  EntInv (s_entries (b_st b)) (s_utxo (b_st b)) lostr -> KeyU (s_entries (b_st b)) (s_utxo (b_st b)) ->
+  FlInv (s_entries (b_st b)) rs (map loc_flot locs) ->
+  OutsR txid outs per_out (s_utxo (b_st b)) ->
+  Forall (located txid 0 0 outs) locs ->
+  apply_locs h (Some rs) locs b = Ok b' ->
+  DomIff (b_next b') (s_entries (b_st b')) /\
+  EntInv (s_entries (b_st b')) (s_utxo (b_st b')) lostr /\ KeyU (s_entries (b_st b')) (s_utxo (b_st b')) /\
+  Ext (s_entries (b_st b)) (s_entries (b_st b')) /\ OutsR txid outs per_out (s_utxo (b_st b')).
+Proof.
+  intros h rs txid outs per_out lft lostr locs. induction locs as [|[[[op off] f] o] r IH]; intros b b' Hz HSp D HE HK HF HO HL H; cbn [apply_locs] in H.
+  - inv H. split; [exact D|]. split; [exact HE|]. split; [exact HK|]. split; [apply Ext_refl|exact HO].
+  - dbind H. rename a into b1. apply Forall_cons_iff in HL. destruct HL as [HL1 HL2]. cbn [map loc_flot fst snd] in HF.
+    destruct HL1 as (k & o' & K1 & K2 & K3 & K4 & K5). cbn [fst snd loc_flot] in *.
+    assert (S1 : EntInv (s_entries (b_st b1)) (s_utxo (b_st b1)) lostr /\ KeyU (s_entries (b_st b1)) (s_utxo (b_st b1))).
+    { eapply step_sat; [exact D|exact HE|exact HK| | |exact E].
+      - intros s Ho. apply (HF f s); auto. left. reflexivity.
+      - cbn [fst snd]. intros _ n Hn. subst op. rewrite N.add_0_l. unfold eranges. rewrite (is_null_real _ _ Hz).
+        destruct (HO k o' K1) as (u & U1 & U2). unfold entry_at. rewrite U1, U2.
+        destruct (split_sats_spec _ _ _ _ HSp) as [A _]. destruct (A k o' K1) as (m & M1 & M2 & M3).
+        rewrite (nth_error_nth_d _ _ [] _ M1). rewrite K4. unfold out_start in *. rewrite N.add_0_l in *.
+        rewrite M3; auto. }
+    destruct S1 as [E1 K1'].
+    pose proof (Ext_step _ _ _ _ _ _ _ D E) as X1.
+    pose proof (step_dom _ _ _ _ _ _ _ E D) as D1.
+    assert (O1 : OutsR txid outs per_out (s_utxo (b_st b1))).
+    { destruct (update_utxo_shape _ _ _ _ _ _ _ E) as (op2 & s2 & off2 & U & _). rewrite U. apply OutsR_push. exact HO. }
+    destruct (IH b1 b' Hz HSp D1 E1 K1') as (A & B & C & X & O); auto.
+    { eapply FlInv_ext; [exact X1|]. intros g s Hg. apply HF. right. exact Hg. }
+    split; [exact A|]. split; [exact B|]. split; [exact C|]. split; [eapply Ext_trans; eauto|exact O].
+Qed.
+
+Definition NullR (U : list (outpoint * uentry)) (L : N) : Prop := ranges_size (u_ranges (entry_at null_op U)) = L.
+
+Lemma apply_lost_sat : forall h rs ov lft l b b',
+  (forall g, ov <= g -> calc_sat_in lft 0 (g - ov) = calc_sat_in rs 0 g) ->
+  Forall (fun f => ov <= f_offset f) l ->
+  DomIff (b_next b) (s_entries (b_st b)) ->
+  EntInv (s_entries (b_st b)) (s_utxo (b_st b)) lft -> KeyU (s_entries (b_st b)) (s_utxo (b_st b)) ->
+  FlInv (s_entries (b_st b)) rs l ->
+  NullR (s_utxo (b_st b)) (b_lost b) ->
+  apply_lost h (Some rs) ov l b = Ok b' ->
+  DomIff (b_next b') (s_entries (b_st b')) /\
+  EntInv (s_entries (b_st b')) (s_utxo (b_st b')) lft /\ KeyU (s_entries (b_st b')) (s_utxo (b_st b')) /\
+  Ext (s_entries (b_st b)) (s_entries (b_st b')).
+Proof.
+  intros h rs ov lft l. induction l as [|f r IH]; intros b b' HLf HGe D HE HK HF HN H; cbn [apply_lost] in H.
+  - inv H. split; [exact D|]. split; [exact HE|]. split; [exact HK|]. apply Ext_refl.
+  - dbind H. rename a into off. dbind H. rename a into b1. apply Forall_cons_iff in HGe. destruct HGe as [G1 G2].
+    assert (Hoff : off = b_lost b + f_offset f - ov).
+    { unfold csub in E. destruct (ov <=? b_lost b + f_offset f); inv E. reflexivity. }
+    assert (S1 : EntInv (s_entries (b_st b1)) (s_utxo (b_st b1)) lft /\ KeyU (s_entries (b_st b1)) (s_utxo (b_st b1))).
+    { eapply step_sat; [exact D|exact HE|exact HK| | |exact E0].
+      - intros s Ho. apply (HF f s); auto. left. reflexivity.
+      - cbn [fst snd]. intros _ n Hn. unfold eranges. change (is_null null_op) with true. cbv iota.
+        unfold NullR in HN. rewrite calc_app_ge by lia. rewrite N.add_0_l, HN.
+        assert (X : calc_sat_in lft (b_lost b) off = calc_sat_in lft 0 (f_offset f - ov)).
+        { rewrite <- (calc_shift lft 0 (f_offset f - ov) (b_lost b)). f_equal; lia. }
+        rewrite X, (HLf _ G1). exact Hn. }
+    destruct S1 as [E1 K1].
+    pose proof (Ext_step _ _ _ _ _ _ _ D E0) as X1.
+    pose proof (step_dom _ _ _ _ _ _ _ E0 D) as D1.
+    assert (N1 : NullR (s_utxo (b_st b1)) (b_lost b1)).
+    { destruct (update_utxo_shape _ _ _ _ _ _ _ E0) as (op2 & s2 & off2 & U & _). unfold NullR. rewrite U, entry_at_push_ranges.
+      assert (Hl : b_lost b1 = b_lost b).
+      { destruct (f_origin f) eqn:Ho.
+        - destruct (update_new_shape _ _ _ _ _ _ _ _ _ _ _ _ _ _ Ho E0) as (e0 & [_ _ _ _ _ _ _ _ _ _ _ (_ & _ & Q & _)]). exact Q.
+        - destruct (update_old_shape _ _ _ _ _ _ _ _ Ho E0) as (_ & _ & _ & _ & _ & _ & (_ & _ & Q & _) & _). exact Q. }
+      rewrite Hl. exact HN. }
+    destruct (IH b1 b' HLf G2 D1 E1 K1) as (A & B & C & X); auto.
+    { eapply FlInv_ext; [exact X1|]. intros g s Hg. apply HF. right. exact Hg. }
+    split; [exact A|]. split; [exact B|]. split; [exact C|]. eapply Ext_trans; eauto.
+Qed.
